@@ -840,7 +840,9 @@ fn known_findings() -> (Vec<(String, String, String)>, Vec<String>) {
     // (property, sig, text) for open findings; raw lines of fixed findings
     let mut open = Vec::new();
     let mut fixed = Vec::new();
-    let text = std::fs::read_to_string("/verif/KNOWN_FINDINGS.txt").unwrap_or_default();
+    // the committed file; the environment override exists only so that the mechanism itself can be tested
+    let path = std::env::var("LSMC_KNOWN_FINDINGS").unwrap_or_else(|_| "/verif/KNOWN_FINDINGS.txt".to_string());
+    let text = std::fs::read_to_string(path).unwrap_or_default();
     for line in text.lines() {
         let line = line.trim();
         if let Some(rest) = line.strip_prefix("open:") {
